@@ -75,6 +75,10 @@ def Contexts.lastExiting : Contexts → Bool
   | .cons (.mk _ _ _ _ _ _ _ ex _ _ _ _) .nil => ex
   | .cons _ rest => rest.lastExiting
 
+def Frames.toList : Frames → List Frame
+  | .nil => []
+  | .cons f rest => f :: rest.toList
+
 def Frames.isEmpty : Frames → Bool
   | .nil => true
   | _ => false
@@ -101,13 +105,13 @@ def contextText (srcLine : String) (description : Option String) (isAsync : Bool
 
 def headerText (root : Option String) : String :=
   match root with
-  | some r => "stackscope.Stack of " ++ r ++ " (most recent call last):\n"
-  | none => "stackscope.Stack (most recent call last):\n"
+  | some r => "stackscope.Stack of " ++ r ++ " (most recent call last):" ++ "\n"
+  | none => "stackscope.Stack (most recent call last):" ++ "\n"
 
 def errorLines (err : Option (List String)) : List Line :=
   match err with
   | none => []
-  | some ls => ⟨[], "  Error while extracting stack:\n"⟩ :: ls.map (fun l => ⟨[], "  " ++ l⟩)
+  | some ls => ⟨[], "  Error while extracting stack:\n"⟩ :: ls.map (fun l => ⟨[], "  " ++ l ++ "\n"⟩)
 
 def push (m : Marker) (l : Line) : Line := { l with markers := m :: l.markers }
 
@@ -127,53 +131,55 @@ def markContext : List Line → List Line
       | .startChild :: _ => push .startChildContext x
       | _ => push .continueContext x)
 
-/-- `not line.strip()` on the rendered line -/
-def isBlank (ascii : Bool) (l : Line) : Bool := (l.render ascii).trimAscii.isEmpty
+/-- `not line.strip()` on the rendered line: among the markers that can lead a child's line only
+`continue_child` renders as white space (in both marker tables), so the line is blank iff its text is
+and it carries nothing but `continue_child` markers. -/
+def isBlank (l : Line) : Bool := l.text.trimAscii.isEmpty && l.markers.all (· == .continueChild)
 
 mutual
-  def fmtStack (o : Opts) : Stack → List Line
+  def fmtStack (sc sh : Bool) : Stack → List Line
     | .mk root frames leaf err =>
-      ⟨[], headerText root⟩ :: (fmtFrames o frames ++
+      ⟨[], headerText root⟩ :: (fmtFrames sc sh frames ++
         (match leaf with | some r => [⟨[.startLeaf], r ++ "\n"⟩] | none => []) ++ errorLines err)
-  def fmtFrames (o : Opts) : Frames → List Line
+  def fmtFrames (sc sh : Bool) : Frames → List Line
     | .nil => []
-    | .cons f rest => fmtFrameIn o f ++ fmtFrames o rest
+    | .cons f rest => fmtFrameIn sc sh f ++ fmtFrames sc sh rest
   /-- the frame's lines with the stack-level markers, or nothing if hidden -/
-  def fmtFrameIn (o : Opts) : Frame → List Line
+  def fmtFrameIn (sc sh : Bool) : Frame → List Line
     | .mk head file func lineno code hide ctxs =>
-      if hide && !o.showHidden then [] else
+      if hide && !sh then [] else
         markBlock .startFrame .continueFrame
           (⟨[], head ++ "\n"⟩ ::
-            ((if o.showContexts then fmtContexts o ctxs else []) ++
+            ((if sc then fmtContexts sc sh ctxs else []) ++
              (if ctxs.lastExiting || code.isEmpty then [] else [⟨[.startCode], code ++ "\n"⟩])))
-  def fmtContexts (o : Opts) : Contexts → List Line
+  def fmtContexts (sc sh : Bool) : Contexts → List Line
     | .nil => []
-    | .cons c rest => markContext (fmtContext o true true c) ++ fmtContexts o rest
+    | .cons c rest => markContext (fmtContext sc sh true true c) ++ fmtContexts sc sh rest
   /-- `Context._format(opts, parent, show_lineno=…)` -/
-  def fmtContext (o : Opts) (hasParent showLineno : Bool) : Context → List Line
+  def fmtContext (sc sh : Bool) (hasParent showLineno : Bool) : Context → List Line
     | .mk src desc isAsync objType varname startLine hide _ex _repr _robj inner children =>
-      if hide && !o.showHidden then [] else
+      if hide && !sh then [] else
         ⟨[], contextText src desc isAsync objType varname startLine hasParent showLineno⟩ ::
-          ((match inner with | some s => (fmtStack o s).drop 1 | none => []) ++ fmtChildren o false children)
+          ((match inner with | some s => (fmtStack sc sh s).drop 1 | none => []) ++ fmtChildren sc sh false children)
   /-- the `for child in self.children` loop; the Bool is `did_blank` -/
-  def fmtChildren (o : Opts) (didBlank : Bool) : Children → List Line
+  def fmtChildren (sc sh : Bool) (didBlank : Bool) : Children → List Line
     | .nil => []
     | .ctx c rest =>
-      let sub := fmtContext o false false c
-      let db := match sub.getLast? with | some l => isBlank o.ascii l | none => false
-      markBlock .startChild .continueChild sub ++ fmtChildren o db rest
+      let sub := fmtContext sc sh false false c
+      let db := match sub.getLast? with | some l => isBlank l | none => false
+      markBlock .startChild .continueChild sub ++ fmtChildren sc sh db rest
     | .stack (.mk root frames leaf err) rest =>
-      let body := (fmtStack o (.mk root frames leaf err)).drop 1
+      let body := (fmtStack sc sh (.mk root frames leaf err)).drop 1
       let first : Line := ⟨[], (match root with | some r => r | none => "<unidentified child>") ++ "\n"⟩
       let hasFrames := !frames.isEmpty
       let pre : List Line := if hasFrames && !didBlank then [⟨[.continueChild], "\n"⟩] else []
       let sub := (first :: body) ++ (if hasFrames then [⟨[], "\n"⟩] else [])
-      let db := match sub.getLast? with | some l => isBlank o.ascii l | none => false
-      pre ++ markBlock .startChild .continueChild sub ++ fmtChildren o db rest
+      let db := match sub.getLast? with | some l => isBlank l | none => false
+      pre ++ markBlock .startChild .continueChild sub ++ fmtChildren sc sh db rest
 end
 
 /-- `Formattable.format(...)`: the rendered strings. -/
-def format (o : Opts) (s : Stack) : List String := (fmtStack o s).map (Line.render o.ascii)
+def format (o : Opts) (s : Stack) : List String := (fmtStack o.showContexts o.showHidden s).map (Line.render o.ascii)
 
 /-- `str(stack)` -/
 def str (s : Stack) : String := String.join (format ⟨false, true, false⟩ s)
@@ -191,6 +197,30 @@ structure Summary where
   isFrameEntry : Bool            -- built by Frame.as_stdlib_summary (locals of the frame captured iff requested)
   deriving DecidableEq, Repr
 
+/-- The entry introducing a context: `traceback.FrameSummary(parent.filename, start_line or parent.lineno,
+parent.funcname + " (info)", locals=…, line=override_line or ("" if start_line is None else None))`. -/
+def ctxEntry (captureLocals : Bool) (file func : String) (lineno : Nat) (override : Option String)
+    (desc objType varname : Option String) (startLine : Option Nat) (reprObj : String) : Summary :=
+  let info := nameAndType objType varname
+  let descOrRepr := match desc with | some d => if d.isEmpty then reprObj else d | none => reprObj
+  ⟨file, (match startLine with | some n => if n = 0 then lineno else n | none => lineno),
+   func ++ (if info.isEmpty then "" else " (" ++ info ++ ")"),
+   (match override with
+    | some l => some l
+    | none => if startLine.isNone then some "" else none),
+   (if captureLocals then some descOrRepr else none), false⟩
+
+/-- `"# " + (subctx.description or repr(subctx))` -/
+def Context.overrideLine : Context → String
+  | .mk _ desc _ _ _ _ _ _ reprSelf _ _ _ =>
+    "# " ++ (match desc with | some d => if d.isEmpty then reprSelf else d | none => reprSelf)
+
+def ownSummary : Frame → Summary
+  | .mk _ file func lineno _ _ _ => ⟨file, lineno, func, none, none, true⟩
+
+def Frame.hidden : Frame → Bool
+  | .mk _ _ _ _ _ hide _ => hide
+
 mutual
   def sumStack (showContexts showHidden captureLocals : Bool) : Stack → List Summary
     | .mk _ frames _ _ => sumFrames showContexts showHidden captureLocals frames
@@ -200,10 +230,10 @@ mutual
   def sumFrame (showContexts showHidden captureLocals : Bool) : Frame → List Summary
     | .mk _head file func lineno _code hide ctxs =>
       if hide && !showHidden then [] else
-        let own : Summary := ⟨file, lineno, func, none, none, true⟩
         if showContexts then
-          sumContexts showHidden captureLocals file func lineno ctxs ++ (if ctxs.lastExiting then [] else [own])
-        else [own]
+          sumContexts showHidden captureLocals file func lineno ctxs ++
+            (if ctxs.lastExiting then [] else [⟨file, lineno, func, none, none, true⟩])
+        else [⟨file, lineno, func, none, none, true⟩]
   def sumContexts (showHidden captureLocals : Bool) (file func : String) (lineno : Nat) : Contexts → List Summary
     | .nil => []
     | .cons c rest => sumContext showHidden captureLocals file func lineno none c ++ sumContexts showHidden captureLocals file func lineno rest
@@ -211,23 +241,15 @@ mutual
   def sumContext (showHidden captureLocals : Bool) (file func : String) (lineno : Nat) (override : Option String) : Context → List Summary
     | .mk _src desc _isAsync objType varname startLine hide _ex _reprSelf reprObj inner children =>
       if hide && !showHidden then [] else
-        let info := nameAndType objType varname
-        let descOrRepr := match desc with | some d => if d.isEmpty then reprObj else d | none => reprObj
-        let entry : Summary :=
-          ⟨file, (match startLine with | some n => if n = 0 then lineno else n | none => lineno),
-           func ++ (if info.isEmpty then "" else " (" ++ info ++ ")"),
-           (match override with
-            | some l => some l
-            | none => if startLine.isNone then some "" else none),
-           (if captureLocals then some descOrRepr else none), false⟩
-        entry :: ((match inner with | some s => sumStack true showHidden captureLocals s | none => []) ++
-                  sumChildren showHidden captureLocals file func lineno children)
+        ctxEntry captureLocals file func lineno override desc objType varname startLine reprObj ::
+          (sumInner showHidden captureLocals inner ++ sumChildren showHidden captureLocals file func lineno children)
+  def sumInner (showHidden captureLocals : Bool) : Option Stack → List Summary
+    | none => []
+    | some s => sumStack true showHidden captureLocals s
   def sumChildren (showHidden captureLocals : Bool) (file func : String) (lineno : Nat) : Children → List Summary
     | .nil => []
-    | .ctx (.mk src desc isAsync objType varname startLine hide ex reprSelf reprObj inner children) rest =>
-      let descOrRepr := match desc with | some d => if d.isEmpty then reprSelf else d | none => reprSelf
-      sumContext showHidden captureLocals file func lineno (some ("# " ++ descOrRepr))
-          (.mk src desc isAsync objType varname startLine hide ex reprSelf reprObj inner children)
+    | .ctx c rest =>
+      sumContext showHidden captureLocals file func lineno (some c.overrideLine) c
         ++ sumChildren showHidden captureLocals file func lineno rest
     | .stack _ rest => sumChildren showHidden captureLocals file func lineno rest   -- child task stacks are not summarised
 end
